@@ -142,19 +142,43 @@ func genC16(cs *CaseSet, rng *Rng, tier string, dir string) {
 		}
 	}
 	// restart 1: loads everything; legacy files are migrated (re-saved in named form)
-	am1, err := mobius.NewYAMLAccountManager(users + "/")
-	must(err)
+	am1, err1 := mobius.NewYAMLAccountManager(users + "/")
 	// restart 2: loads the migrated files
-	am2, err := mobius.NewYAMLAccountManager(users + "/")
-	must(err)
+	am2, err2 := mobius.NewYAMLAccountManager(users + "/")
+	// if the directory as a whole does not load, every account file is loaded on its own (twice), so that the ones
+	// that fail are named instead of the whole run breaking
+	loadAlone := func(login string) (l1, l2 []byte) {
+		one := filepath.Join(env.Dir, "one-account")
+		os.RemoveAll(one)
+		must(os.MkdirAll(one, 0755))
+		b, err := os.ReadFile(filepath.Join(users, login+".yaml"))
+		must(err)
+		must(os.WriteFile(filepath.Join(one, login+".yaml"), b, 0644))
+		if m, err := mobius.NewYAMLAccountManager(one + "/"); err == nil {
+			if a := m.Get(login); a != nil {
+				l1 = append([]byte{}, a.Access[:]...)
+			}
+		}
+		if m, err := mobius.NewYAMLAccountManager(one + "/"); err == nil {
+			if a := m.Get(login); a != nil {
+				l2 = append([]byte{}, a.Access[:]...)
+			}
+		}
+		return
+	}
 	for _, it := range items {
 		keys, _ := trueKeys(filepath.Join(users, it.login+".yaml"))
 		var l1, l2 []byte
-		if a := am1.Get(it.login); a != nil {
-			l1 = append([]byte{}, a.Access[:]...)
-		}
-		if a := am2.Get(it.login); a != nil {
-			l2 = append([]byte{}, a.Access[:]...)
+		if err1 != nil || err2 != nil {
+			l1, l2 = loadAlone(it.login)
+			keys, _ = trueKeys(filepath.Join(env.Dir, "one-account", it.login+".yaml"))
+		} else {
+			if a := am1.Get(it.login); a != nil {
+				l1 = append([]byte{}, a.Access[:]...)
+			}
+			if a := am2.Get(it.login); a != nil {
+				l2 = append([]byte{}, a.Access[:]...)
+			}
 		}
 		n := popcount(it.b)
 		cs.Add(Case{Kind: it.kind + map[int]string{1: "-named", 2: "-legacy"}[it.format],
@@ -164,6 +188,9 @@ func genC16(cs *CaseSet, rng *Rng, tier string, dir string) {
 	}
 
 	// wire: the bytes sent in the user-access field at login are the bitmap Authorize reads
+	if err1 != nil || err2 != nil {
+		return // the wire part needs a loaded account directory
+	}
 	env.Srv.AccountManager = am2
 	nW := 40
 	if tier == "thorough" {
